@@ -14,13 +14,35 @@ Lemma ge_column_isolated (h : heap) (n : nat) (taxa : option nat) (k i : nat) (v
   let '(h', c) := ge_taxa_column h n taxa k in hread (hwrite h' c i v) l = hread h l.
 Proof. intro H. unfold ge_taxa_column, halloc. rewrite hwrite_app_fresh. now apply hread_app_old. Qed.
 
-(** generated labels: the same holds for TruePhenotyping *)
-Lemma tp_column_isolated_generated (h : heap) (n i : nat) (v : str) (l : nat) : (l < length h)%nat ->
-  let '(h', c) := tp_taxa_column h n None in hread (hwrite h' c i v) l = hread h l.
+(** the same holds for TruePhenotyping, with generated AND with explicit labels (full strength since the repair of
+    C14-truepheno-table-shares-labels: the column is a copy of the population's array) *)
+Lemma tp_column_isolated (h : heap) (n : nat) (taxa : option nat) (i : nat) (v : str) (l : nat) : (l < length h)%nat ->
+  let '(h', c) := tp_taxa_column h n taxa in hread (hwrite h' c i v) l = hread h l.
 Proof. intro H. unfold tp_taxa_column, halloc. rewrite hwrite_app_fresh. now apply hread_app_old. Qed.
+(** ... and the column carries the population's labels (the copy is faithful), resp. the generated ones *)
+Lemma tp_column_content (h : heap) (n : nat) (taxa : option nat) :
+  let '(h', c) := tp_taxa_column h n taxa in
+  hread h' c = match taxa with Some l => hread h l | None => auto_labels "Taxon"%string n end.
+Proof. unfold tp_taxa_column, halloc, hread. rewrite app_nth2 by lia. now rewrite Nat.sub_diag. Qed.
 
-(** explicit labels: the column IS the population's array — a write into the table changes the population's labels *)
-Lemma tp_column_aliases :
+(** the probe observable of the harness is constantly true for the repaired code *)
+Lemma tp_table_isolated_true (n : nat) (taxa : option (list str)) : tp_table_isolated n taxa = true.
+Proof.
+  unfold tp_table_isolated, probe_isolated. destruct taxa as [a|].
+  - pose proof (tp_column_isolated [a] n (Some 0%nat) 0 "__mut__"%string 0) as H.
+    destruct (tp_taxa_column [a] n (Some 0%nat)) as [h' c]. cbn [length seq forallb]. rewrite H by (cbn; lia).
+    unfold sl_eqb. rewrite list_eqb_refl by exact String.eqb_refl. reflexivity.
+  - destruct (tp_taxa_column [] n None) as [h' c]. reflexivity.
+Qed.
+
+(** regression witness — the FORMER code: with explicit labels the column WAS the population's array, a write into the table
+    changed the population's labels; with generated labels it was isolated (the former `_partial` statement) *)
+Lemma old_tp_column_isolated_generated (h : heap) (n i : nat) (v : str) (l : nat) : (l < length h)%nat ->
+  let '(h', c) := old_tp_taxa_column h n None in hread (hwrite h' c i v) l = hread h l.
+Proof. intro H. unfold old_tp_taxa_column, halloc. rewrite hwrite_app_fresh. now apply hread_app_old. Qed.
+Lemma old_tp_column_aliases :
   exists (h : heap) (l i : nat) (v : str), (l < length h)%nat /\
-    let '(h', c) := tp_taxa_column h 2 (Some l) in hread (hwrite h' c i v) l <> hread h l.
+    let '(h', c) := old_tp_taxa_column h 2 (Some l) in hread (hwrite h' c i v) l <> hread h l.
 Proof. exists [["b"; "a"]%string], 0%nat, 0%nat, "zz"%string. split; [cbn; lia | cbn; discriminate]. Qed.
+Lemma old_tp_table_shared : old_tp_table_isolated 2 (Some ["b"; "a"]%string) = false.
+Proof. reflexivity. Qed.
